@@ -387,6 +387,8 @@ def execute(check, case, workdir):
             else:
                 viol(opname, 'result_mismatch:' + d[0], {'attributes': d}, stepno, flags)
             mm.model = got
+        if carrier:
+            mm.model = got       # whatever came back is what this new member now is (dropped bond types included)
         if top2 is src.top:
             viol(opname, 'returned_same_object', {}, stepno, flags)
             return None
